@@ -27,6 +27,8 @@ type MsgSpec struct {
 type IcSpec struct {
 	AddHeader bool    `json:"addheader,omitempty"` // mutates: appends a header (a second application is observable)
 	PanicOn   []int64 `json:"panicon,omitempty"`   // panics (before mutating) for these message ids
+	// Nil: the chain holds a nil entry at this position: calling it panics inside safelyApplyInterceptor (contained)
+	Nil bool `json:"nil,omitempty"`
 }
 
 // HoldSpec steers the schedule: hold the Nth occurrence of hook Kind until the next wave was submitted.
@@ -239,6 +241,10 @@ func Run(sc *Scenario) *Result {
 	obs := NewObserver(sc.Jitter)
 	rs := &runState{obs: obs}
 	for i, s := range sc.Ics {
+		if s.Nil {
+			cfg.Producer.Interceptors = append(cfg.Producer.Interceptors, nil)
+			continue
+		}
 		cfg.Producer.Interceptors = append(cfg.Producer.Interceptors, &interceptor{idx: i, spec: s, run: rs})
 	}
 	var gates []*Gate
